@@ -75,6 +75,20 @@ def check_dino(spec):
     limit = math.floor(b * h * w + 1e-4 * h * w)
     if int(counts.max()) > limit:
         raise Violation("dino:mask-exceeds-upper-ratio", f"{int(counts.max())} cells masked, upper ratio {b} of {h * w} allows {limit}")
+    # the same collator sees a batch of another size next (e.g. the incomplete last batch): the budget follows the batch
+    B2 = spec.get("B2", B)
+    s2 = _samples(B2, V, spec["as_list"], list_len=V + spec.get("extra_crops", 0))
+    if spec["as_list"]:
+        s2 = [((k, s_[0]), s_[1]) for k, s_ in enumerate(s2)]
+    _, ctx2 = coll(s2)
+    m2 = ctx2.get("mask")
+    if m2 is None or tuple(m2.shape) != (B2 * V, h, w):
+        raise Violation("dino:mask-shape-or-dtype:second-batch", f"{None if m2 is None else tuple(m2.shape)} expected {(B2 * V, h, w)}")
+    ne2 = int((m2.flatten(1).sum(dim=1) > 0).sum())
+    if ne2 > math.floor(B2 * V * spec["prob"] + 1e-9):
+        raise Violation("dino:too-many-masked-samples:second-batch", f"{ne2} non-empty masks for a second batch of {B2} (first batch {B})")
+    if int(m2.flatten(1).sum(dim=1).max()) > limit:
+        raise Violation("dino:mask-exceeds-upper-ratio:second-batch", "")
     # without a context nothing is added and the batch is returned
     coll2 = KDDinoMaskCollator(mask_ratio=(a, b), mask_prob=spec["prob"], mask_size=(h, w), num_views=V, dataset_mode=mode, return_ctx=False)
     b2 = coll2([s[0] for s in samples])
@@ -201,7 +215,7 @@ RATIO = st.tuples(st.sampled_from([0.0, 0.1, 0.3, 0.5]), st.sampled_from([0.0, 0
 DINO = st.fixed_dictionaries({"B": st.integers(1, 8), "V": st.integers(1, 3), "as_list": st.booleans(), "h": st.integers(2, 16),
                               "w": st.integers(2, 16), "ratio": RATIO, "prob": st.sampled_from([0.0, 0.25, 0.5, 0.3, 0.75, 1.0]),
                               "min_patches": st.sampled_from([1, 4, 8]), "min_aspect": st.sampled_from([0.3, 0.1, 1.0]),
-                              "seed": st.integers(0, 2 ** 32 - 1), "extra_crops": st.sampled_from([0, 0, 1, 4])})
+                              "seed": st.integers(0, 2 ** 32 - 1), "extra_crops": st.sampled_from([0, 0, 1, 4]), "B2": st.integers(1, 8)})
 IJEPA = st.fixed_dictionaries({"gh": st.integers(3, 16), "gw": st.integers(3, 16), "patch": st.sampled_from([1, 4, 16, [8, 4], [4, 8], [2, 3]]),
                                "enc_scale": st.sampled_from([[0.85, 1.0], [0.5, 0.7], [0.3, 0.3], [0.6, 1.0]]),
                                "pred_scale": st.sampled_from([[0.15, 0.2], [0.05, 0.1], [0.1, 0.3], [0.02, 0.02]]),
